@@ -102,20 +102,20 @@ claim("C19", "srv",
 
 # Additions made while strengthening the checks against seeded breakages (appended to the texts above).
 EXTRA = {
- "C01": " Also: crashes are admitted (convergence required for running owners), directed deep / phased / member-phased generators, and a max-size-value sub-check (a key-value that exactly fits the datagram with the digest must be delivered by one handshake, whichever side initiates). A bulk sub-check: a joiner facing 500-6,000 small compressible entries (up to > 256 KiB decompressed per datagram), every message through the real codec; each handshake must advance it.",
+ "C01": " Also: crashes are admitted (convergence required for running owners), directed deep / phased / member-phased generators, and a max-size-value sub-check (a key-value that exactly fits the datagram with the digest must be delivered by one handshake, whichever side initiates). A bulk sub-check: a joiner facing 500-6,000 small compressible entries (up to > 256 KiB decompressed per datagram), every message through the real codec; each handshake must advance it. The fair phase also requires the copies of advertised members whose owner is gone (crashed, or a former incarnation of a restarted node) to converge between direct neighbours.",
  "C02": " Histories include held SYN-ACKs and external catch-up calls fed with a peer's copy; besides uniform op mixes, directed deep / phased / member-phased generators reach mid-reset copies meeting delayed replies and stale peers. Catch-up calls may also go through the serde snapshot of the peer's copy.",
- "C03": " Histories include held SYN-ACKs and external catch-up calls; slots 3 and 4 advertise IPv4-mapped and loopback IPv6 addresses. Catch-up calls may also go through the serde snapshot of the peer's copy (what an application would ship).",
+ "C03": " Histories include held SYN-ACKs and external catch-up calls; slots 3 and 4 advertise IPv4-mapped and loopback IPv6 addresses. Catch-up calls may also go through the serde snapshot of the peer's copy (what an application would ship). Values include the empty string (also under a TTL).",
  "C04": " Histories include external catch-up calls followed by key GC (sub-watermark tombstones). After the deliveries of every (copy, delta) case the receiver performs local writes (set, delete, delete-after-TTL): each must get exactly the previous max version + 1, also on an own state that a delta about the receiver itself left with a watermark above its max version.",
  "C05": " Also: a catch-up call fed with a peer's honest copy of the node's own namespace must change nothing. A sub-check feeds a node stale, header-only and truncated deltas about its own namespace: its copy, watermark and later version allocation must be unaffected.",
- "C06": " Also: grace periods with a fractional part, below one second, 1 ns and 0; a replica catch-up op (entries already held at the same version keep their deletion instant). Inside cluster histories a monitor checks the replica-side GC of tombstones (marked entries older than the grace period are dropped by a GC pass, younger ones kept). Random sequences also use order-boundary keys (U+10FFFF alone / followed by more / after a prefix, U+FFFF, U+0000).",
- "C07": " Also: members unknown to the sender in the peer's SYN (own digest grows before answering), a trailing member offered as header + explicit max version, key-values that can never fit; the oracle is exactly the stated interval condition relative to the announced start. A many-keys sub-check (up to 100,000 stale key-values of one member; the newest in version order must be the ones cut) and sub-watermark tombstones brought in by catch-up. A huge-digest sub-check: 1-40 members with node ids of up to 65 KB so that the sender's own digest leaves 100-1,200 bytes for the delta.",
- "C08": " Also: ids differing only by address, special IPv4/IPv6 forms, multi-megabyte compressible op streams in both directions, blocks compressed with the streaming zstd API (no declared content size); byte equality with the independent canonical encoder is recorded, not required. The decoder is also handed damaged variants of a message right before the intact bytes on the same thread (it must not depend on what it decoded before), and an independent-encoder mode that flushes a zero-length raw block before the end tag. A death of the check process (abort, not panic) is attributed to the in-flight case by replaying it alone.",
+ "C06": " Also: grace periods with a fractional part, below one second, 1 ns and 0; a replica catch-up op (entries already held at the same version keep their deletion instant). Inside cluster histories a monitor checks the replica-side GC of tombstones (marked entries older than the grace period are dropped by a GC pass, younger ones kept). Random sequences also use order-boundary keys (U+10FFFF alone / followed by more / after a prefix, U+FFFF, U+0000). The replica variant also ships the owner's state as a serde (JSON) snapshot (statuses survive, deletion instants restart).",
+ "C07": " Also: members unknown to the sender in the peer's SYN (own digest grows before answering), a trailing member offered as header + explicit max version, key-values that can never fit; the oracle is exactly the stated interval condition relative to the announced start. A many-keys sub-check (up to 100,000 stale key-values of one member; the newest in version order must be the ones cut) and sub-watermark tombstones brought in by catch-up. A huge-digest sub-check: 1-40 members with node ids of up to 65 KB so that the sender's own digest leaves 100-1,200 bytes for the delta. The loopback UDP smoke (every emitted datagram is exactly one message, also after a failed send) also runs for C07.",
+ "C08": " Also: ids differing only by address, special IPv4/IPv6 forms, multi-megabyte compressible op streams in both directions, blocks compressed with the streaming zstd API (no declared content size); byte equality with the independent canonical encoder is recorded, not required. The decoder is also handed damaged variants of a message right before the intact bytes on the same thread (it must not depend on what it decoded before), and an independent-encoder mode that flushes a zero-length raw block before the end tag. A death of the check process (abort, not panic) is attributed to the in-flight case by replaying it alone. Ids that differ only by node id (same generation and address); the loopback UDP smoke incl. a direct receive probe of the real transport (the 4-byte BadCluster must come out of recv) also runs for C08.",
  "C09": " Also: foreign cluster ids of any shape (long, non-ASCII, multi-byte at any offset) and the loopback UDP smoke (garbage, truncated, maximum-size and empty datagrams, failed sends). The victim has key listeners and hostile deltas carry non-ASCII keys. A death of the check process (abort on an attacker-chosen allocation size, signal) is attributed to the in-flight case by replaying it alone in a fresh process and reported as a violation; a message processed while another thread is inside a listener-handle drop must not panic.",
  "C10": " Histories also contain stale digests and catch-up calls for the observed member. Histories also contain copy resets (a delta that resets the member's key-values) between arrivals: a reset must not make a stale heartbeat count as fresh. The observer may be configured with an application liveness predicate the member never satisfies; heartbeat counters may start in the upper half of u64. A server-level sub-check (real server, scripted transport, per-destination send failures, predicate): after >= 5 rounds every heartbeating peer is live and every silent one is in the dead set.",
- "C11": " The twin also receives catch-up calls; accuracy schedules contain outages and boundary-valued gaps (exactly max_interval). Thresholds that are exactly tight (phi == threshold built with exact binary arithmetic) and copy-reset events. Heartbeat counters starting at 2^63-3, 2^63+2, u64::MAX-70,000 and tiny stale values; observer optionally with an application liveness predicate.",
- "C12": " Also: phased membership histories (skewed detection, restart-and-gossip, catch-ups) and a removed-member-memory sub-check with up to 500 members and two removal waves. The membership monitor also applies the time-aware dead-to-live rule (live implies two fresh observations at most max_interval apart, the later one after the last evaluation that found the member dead).",
- "C13": " Also: the first value of live_nodes_watch_stream() must equal the watcher's; restart-and-gossip sequences (both incarnations live at once) and catch-up calls. Predicates include ones that hold on a state without key-values (negated key presence, constant true).",
- "C14": " Also: the member may be the receiver itself (node restarted under the same id), and the sender may hold another member that the receiver has removed and remembers; a semantic end-state check (receiver holds every sender entry in the newly covered interval). Variant: the receiver has evaluated liveness, the member is dead there but not yet scheduled for deletion.",
+ "C11": " The twin also receives catch-up calls; accuracy schedules contain outages and boundary-valued gaps (exactly max_interval). Thresholds that are exactly tight (phi == threshold built with exact binary arithmetic) and copy-reset events. Heartbeat counters starting at 2^63-3, 2^63+2, u64::MAX-70,000 and tiny stale values; observer optionally with an application liveness predicate. The accuracy observer has a finite dead-node grace period and some outages last longer than it, with no evaluation until three heartbeats are back: the member must then be live, not collected.",
+ "C12": " Also: phased membership histories (skewed detection, restart-and-gossip, catch-ups) and a removed-member-memory sub-check with up to 500 members and two removal waves. The membership monitor also applies the time-aware dead-to-live rule (live implies two fresh observations at most max_interval apart, the later one after the last evaluation that found the member dead). Also: a member whose sampling window holds an interval and whose last fresh heartbeat is recent (half of phi x min(smallest gap, initial interval)) must be live after the evaluation; the heartbeat remembered at removal must not be below the highest value the node has been told.",
+ "C13": " Also: the first value of live_nodes_watch_stream() must equal the watcher's; restart-and-gossip sequences (both incarnations live at once) and catch-up calls. Predicates include ones that hold on a state without key-values (negated key presence, constant true). Nodes may be configured with a (never answering) seed, and in a third of the cases the harness keeps no receiver between evaluations (a late subscriber must see the evaluated membership).",
+ "C14": " Also: the member may be the receiver itself (node restarted under the same id), and the sender may hold another member that the receiver has removed and remembers; a semantic end-state check (receiver holds every sender entry in the newly covered interval). Variant: the receiver has evaluated liveness, the member is dead there but not yet scheduled for deletion. A pair variant in which the receiver has scheduled the member for deletion (its digest omits it) while still holding the copy: the from-0 delta computed from that digest must be applied like any other.",
  "C15": " Also: catch-up events (keys already held at the same version must not notify) and a harness-scheduled two-thread sub-check (a handle dropped while another thread is dispatching must be gone once the drop returns). A local write or gossip message dispatched while another thread is inside a handle drop (slow destructor of the dropped closure) must neither panic nor lose the event for the other subscriptions. Subscriptions may use zero-sized callbacks (function items recording into a thread-local log).",
  "C16": " Cluster ids incl. whitespace-padded, separator variants, long and multi-byte ones; plus the loopback UDP smoke with a foreign-cluster probe after a failed send. The UDP smoke also runs a second real server of another cluster whose id is the first id followed by 65,536 bytes (16-bit length prefix), seeded at the first: neither may learn the other. The id dictionary contains one pair colliding under std DefaultHasher (from a seeded change; not reachable by generation). A foreign-syn-runs sub-check: own ids of 0..1,024 bytes related to the foreign id (own+suffix, prefix, case variant, one character changed) and runs of 1..1,030 foreign SYNs at one node, each of which must be rejected and change nothing.",
  "C17": " Also a server-level sub-check: the real server on a scripted transport (peers introduced by digests, own address among the seeds, per-destination send failures, 20 s dead-node grace): per round at most 5 SYNs, none to itself or to unknown addresses, a seed reached when isolated, a dead peer probed when outnumbering (also once scheduled for deletion). The server-level sub-check also draws an application liveness predicate no peer satisfies (once a live peer is known at most one dead peer per round) and a host-name seed next to literal ones with 172 virtual seconds (the literal seed must still be contacted after the first DNS refresh). The server-level sub-check also uses a wildcard listen address (0.0.0.0:port, advertised 127.0.0.1:port), a seed that is a dead peer, and a case-seeded peer-selection generator (hook verif_set_server_seed); because the pools are hash-randomised sets a failing case is re-evaluated up to 40 times.",
